@@ -413,7 +413,7 @@ def battery(N: Namespace, problems: list[str] | None = None) -> list[Any]:
     out: list[Any] = [
         object(), 0, 1, True, False, 2, 1.5, 1.0, "s", "ab", "x", "a", b"b", b"k", None, N.MISSING, (), [], {}, set(), frozenset(), (1,), [1], {"ab": 1}, {1: "a"}, {"k"},
         uuid.UUID(int=5), datetime.date(2020, 1, 1), datetime.datetime(2020, 1, 1), datetime.time(1, 2), datetime.timedelta(1), datetime.timezone.utc, pathlib.Path("p"),
-        ns["Color"].RED, ns["Level"].LOW, len, ns["RunnerImpl"](), ns["NotRunner"](), ns["Thing"](), ns["Thing"]("t"), 3 + 4j, range(3), ("a", 1), (1, "a"), [None], (None,), {"k": None}, 3,
+        ns["Color"].RED, ns["Level"].LOW, len, ns["RunnerImpl"](), ns["NotRunner"](), ns["Thing"](), ns["Thing"]("t"), 3 + 4j, range(3), ("a", 1), (1, "a"), [None], (None,), {"k": None}, types.MappingProxyType({"ab": 1}), types.MappingProxyType({1: "a"}), types.MappingProxyType({"k": None}), types.MappingProxyType({}), types.MappingProxyType({"ab": [1]}), 3,
         "1", "2", "0", "k", "True", "None", b"x", b"a", "RED", "Color.RED", 1.0000001, -1, "y ", ["x"], ("x",),
     ]
     makers = [
@@ -613,11 +613,11 @@ def replace_at(v: Any, path: tuple[Any, ...], new: Any) -> Any:
         return type(v)(items)
     if kind == "key":
         d = {(new if (k is key or k == key) else k): x for k, x in v.items()}
-        return d
+        return types.MappingProxyType(d) if isinstance(v, types.MappingProxyType) else d  # a read-only view stays a read-only view
     if kind == "val":
         d = dict(v)
         d[key] = replace_at(d[key], rest, new)
-        return d
+        return types.MappingProxyType(d) if isinstance(v, types.MappingProxyType) else d
     if kind == "attr":
         # generic State instance: rebuild through the *unvalidated* route is impossible; signal to the caller
         raise LookupError("attr path")
